@@ -349,6 +349,88 @@ example : accepted (run ⟨8, true, false⟩ [91, 49, 47, 42, 42, 47, 93]) = tru
     (parseText { comments := false, trailingComma := false, maxDepth := 8 } [91, 49, 47, 42, 42, 47, 93]).isSome = false := by decide
 end ParserRefinement
 
+/-! ### the options: `allow_trailing_comma` and `allow_comments` relax exactly those two constructs (proofs: the simulations of
+    Proofs/JsonParserRefine and Proofs/JsonParserSound are carried out for the reference WITH the trailing-comma production
+    whenever the parser has the option; Proofs/JsonParserOpts* for comments) -/
+section ParserOptions
+open Model.JsonParser
+
+/-- COMPLETENESS with `allow_trailing_comma`: whatever the reference with the trailing-comma production (`, ws ]` and `, ws }`
+    after at least one element / member; no comments; the parser's nesting limit) reads as a value, the parser with the option on
+    accepts, reporting the events of that value (a trailing comma reports nothing) -/
+theorem parse_complete_trailing_comma (cfg : Cfg) (bs : Bytes) (v : JT) (ht : cfg.trailingComma = true)
+    (h : parseText { comments := false, trailingComma := true, maxDepth := cfg.maxDepth } bs = some v) :
+    accepted (run cfg bs) = true ∧ (run cfg bs).evs.reverse.map eraseNoesc = eventsOf v :=
+  run_complete_tc cfg bs v (by
+    rw [show tcFlags cfg = { comments := false, trailingComma := true, maxDepth := cfg.maxDepth } from (by simp [ht])]
+    exact h)
+
+/-- SOUNDNESS with `allow_trailing_comma` (comments off): whatever the parser accepts on a text without a surrogate anomaly, the
+    reference with the trailing-comma production reads as a value, and the events are those of the value. So the option admits
+    NOTHING but a comma before the closing bracket of a non-empty container (`[,]`, `[1,,]`, `{,}` stay errors). -/
+theorem parse_sound_trailing_comma (cfg : Cfg) (bs : Bytes) (hc : cfg.comments = false) (ht : cfg.trailingComma = true)
+    (hs : NoSurrogateAnomaly bs) (h : accepted (run cfg bs) = true) :
+    ∃ v, parseText { comments := false, trailingComma := true, maxDepth := cfg.maxDepth } bs = some v ∧
+      (run cfg bs).evs.reverse.map eraseNoesc = eventsOf v := by
+  obtain ⟨v, hv⟩ := run_sound_tc cfg hc bs hs h
+  refine ⟨v, ?_, (run_complete_tc cfg bs v hv).2⟩
+  rwa [show tcFlags cfg = { comments := false, trailingComma := true, maxDepth := cfg.maxDepth } from (by simp [ht])] at hv
+
+/-- EXACTNESS with `allow_trailing_comma`: on texts without a surrogate anomaly the parser with trailing commas on (comments off)
+    accepts exactly the texts of the grammar extended by the one trailing-comma production -/
+theorem parse_exact_trailing_comma (cfg : Cfg) (bs : Bytes) (hc : cfg.comments = false) (ht : cfg.trailingComma = true)
+    (hs : NoSurrogateAnomaly bs) :
+    accepted (run cfg bs) = true ↔
+      (parseText { comments := false, trailingComma := true, maxDepth := cfg.maxDepth } bs).isSome = true := by
+  constructor
+  · intro h
+    obtain ⟨v, hv, _⟩ := parse_sound_trailing_comma cfg bs hc ht hs h
+    simp [hv]
+  · intro h
+    cases hv : parseText { comments := false, trailingComma := true, maxDepth := cfg.maxDepth } bs with
+    | none => simp [hv] at h
+    | some v => exact (parse_complete_trailing_comma cfg bs v ht hv).1
+
+/-- both settings of the option at once: with comments off, the parser accepts exactly what the reference with THE SAME
+    trailing-comma flag derives (on anomaly-free texts), with the same events -/
+theorem parse_exact_any_trailing_comma (cfg : Cfg) (bs : Bytes) (hc : cfg.comments = false) (hs : NoSurrogateAnomaly bs) :
+    accepted (run cfg bs) = true ↔
+      (parseText { comments := false, trailingComma := cfg.trailingComma, maxDepth := cfg.maxDepth } bs).isSome = true := by
+  constructor
+  · intro h
+    obtain ⟨v, hv⟩ := run_sound_tc cfg hc bs hs h
+    simp [hv]
+  · intro h
+    cases hv : parseText { comments := false, trailingComma := cfg.trailingComma, maxDepth := cfg.maxDepth } bs with
+    | none => simp [hv] at h
+    | some v => exact (run_complete_tc cfg bs v hv).1
+
+-- non-vacuity: [1,] and {"a":1,} and [[1 , ] ,\r] — accepted by both with the option on, by neither with it off; the events
+example : accepted (run ⟨8, false, true⟩ [91, 49, 44, 93]) = true ∧
+    (parseText { comments := false, trailingComma := true, maxDepth := 8 } [91, 49, 44, 93]).isSome = true := by decide
+example : (run ⟨8, false, true⟩ [91, 49, 44, 93]).evs.reverse = [.beginArray, .int [49], .endArray] := by decide
+example : accepted (run ⟨8, false, true⟩ [123, 34, 97, 34, 58, 49, 44, 125]) = true ∧
+    (parseText { comments := false, trailingComma := true, maxDepth := 8 } [123, 34, 97, 34, 58, 49, 44, 125]).isSome = true := by decide
+example : (run ⟨8, false, true⟩ [123, 34, 97, 34, 58, 49, 44, 125]).evs.reverse =
+    [.beginObject, .key [97], .int [49], .endObject] := by decide
+example : accepted (run ⟨8, false, true⟩ [91, 91, 49, 32, 44, 32, 93, 32, 44, 13, 93]) = true ∧
+    (parseText { comments := false, trailingComma := true, maxDepth := 8 } [91, 91, 49, 32, 44, 32, 93, 32, 44, 13, 93]).isSome = true := by
+  decide
+example : NoSurrogateAnomaly [123, 34, 97, 34, 58, 49, 44, 125] := by decide
+example : accepted (run ⟨8, false, false⟩ [123, 34, 97, 34, 58, 49, 44, 125]) = false ∧
+    (parseText { comments := false, trailingComma := false, maxDepth := 8 } [123, 34, 97, 34, 58, 49, 44, 125]).isSome = false := by decide
+-- the option relaxes nothing else: [,] [1,,] {,} {"a":1,,} stay refused by both
+example : accepted (run ⟨8, false, true⟩ [91, 44, 93]) = false ∧
+    (parseText { comments := false, trailingComma := true, maxDepth := 8 } [91, 44, 93]).isSome = false := by decide
+example : accepted (run ⟨8, false, true⟩ [91, 49, 44, 44, 93]) = false ∧
+    (parseText { comments := false, trailingComma := true, maxDepth := 8 } [91, 49, 44, 44, 93]).isSome = false := by decide
+example : accepted (run ⟨8, false, true⟩ [123, 44, 125]) = false ∧
+    (parseText { comments := false, trailingComma := true, maxDepth := 8 } [123, 44, 125]).isSome = false := by decide
+example : accepted (run ⟨8, false, true⟩ [123, 34, 97, 34, 58, 49, 44, 44, 125]) = false ∧
+    (parseText { comments := false, trailingComma := true, maxDepth := 8 } [123, 34, 97, 34, 58, 49, 44, 44, 125]).isSome = false := by decide
+
+end ParserOptions
+
 /-! ### the option flags relax exactly one construct each (kernel-evaluated instances, all four flag pairs) -/
 def fl (c t : Bool) : Flags := { comments := c, trailingComma := t, maxDepth := 1024 }
 def txt (s : String) : Bytes := s.toUTF8.toList.map (·.toNat)
